@@ -77,3 +77,9 @@ claim("C14",
   "Generated provider populations (distinct domains, same-domain, idle, unregistered), all (form size, minimum) pairs with 0 <= m <= n <= 6, attestation and report forms requested by provers / anybody, then arbitrary attest/report messages by named, unnamed, repeated signers and the prover itself against open, never-existing and consumed forms with second requests after consumption. A fresh form must name exactly n distinct registered providers that hold a proof and never the prover; deadlines refresh / provers are removed exactly at the step the model fires and the form is then gone; complete flags equal the set of named signers.",
   "If the prover is already gone when a quorum completes the code errors out and keeps the form: only 'no effect' is asserted; reward blocks are parameterised out of reach; fork mode without ante handler.",
   "DESIGN.md section 4 C14")
+
+claim("C17",
+  "stateful property test (rapid state machine) with a structural invariant recomputed from both indexes and the public queries after every step",
+  "Histories of posts (few distinct contents, several owners, duplicate keys), deletes, valid and junk proofs, attestation/report flows driven to quorum, provider shutdown/re-init and reward blocks that remove provers and drop files. Invariant after every step and every block: by-content and by-owner records are the same set with byte-identical contents; AllFiles/AllFilesByOwner/AllFilesByMerkle agree; every prover list is duplicate-free, within MaxProofs, and each entry resolves via the Proof query and its built key to a record pointing back to the file.",
+  "fewer than 10000 files per world; fork mode without ante handler.",
+  "DESIGN.md section 4 C17")
